@@ -383,9 +383,17 @@ func (eng) Run(c core.CaseDesc, tier string) *core.CaseResult {
 					ctxInfo(map[string]any{"call": cl}))
 			}
 			if !cl.Visible && !faulty {
-				res.Violate("C09/not-visible-at-return/"+cf.mode(), fmt.Sprintf(
-					"%s returned Executed but its effect was not visible on the mirror when the call returned", cl.Op),
-					ctxInfo(map[string]any{"call": cl}))
+				sig := "C09/not-visible-at-return/" + cf.mode()
+				what := fmt.Sprintf("%s returned Executed but its effect was not visible on the mirror when the call returned", cl.Op)
+				if strings.HasPrefix(cl.Op, "remove") && !seen[cl.Uid] {
+					// the source ran no transition for it: Remove's early return
+					// (state already inactive on the source while a Remove was in
+					// flight) answered, and the reply carried the tracer's last
+					// snapshot, which is older than the activity Remove looked at
+					sig = "C09/not-visible-at-return/remove-answered-by-early-return"
+					what += " (the source has no transition for it: answered by Remove's early return while another Remove was in flight)"
+				}
+				res.Violate(sig, what, ctxInfo(map[string]any{"call": cl}))
 			}
 		}
 		// (Canceled is not judged: the source itself may report Canceled to a
